@@ -97,7 +97,7 @@ func skeletonN(ts []gen.NTok) string {
 
 func RunC02(c *Ctx) {
 	n := 0
-	gSentences(c, c.Pick(60_000, 1_500_000), func(gs gSentence) {
+	gSentences(c, c.Pick(120_000, 2_000_000), func(gs gSentence) {
 		CheckC02(c, gs.S.Entry, gs.Text)
 		n++
 		if n%4000 == 1 {
@@ -284,7 +284,7 @@ func CheckC08List(c *Ctx, listEntry string, texts []string, trailing bool) {
 func RunC08(c *Ctx) {
 	n := 0
 	var pool = map[string][]string{} // accepted sentence texts per list entry
-	gSentences(c, c.Pick(40_000, 1_000_000), func(gs gSentence) {
+	gSentences(c, c.Pick(120_000, 2_000_000), func(gs gSentence) {
 		ok := CheckC08(c, gs.S.Entry, gs.Text)
 		c.Distinct(skeletonToks(gs.S))
 		if ok {
@@ -362,6 +362,7 @@ var ScopeProbes = []ScopeProbe{
 	{"query", "SELECT * FROM (SELECT 1) AS a"},
 	{"query", "SELECT * FROM ((SELECT 1))"},
 	{"dml", "DELETE FROM t WHERE TRUE THEN RETURN WITH(a AS 1, a)"},
+	{"expr", "a[`offset`]"},
 }
 
 // ---------------------------------------------------------------------------
@@ -412,7 +413,7 @@ func RunC16(c *Ctx) {
 	n := 0
 	k := c.Pick(3, 6)
 	// sentences of G: roles are known, so KW and PKW change case, ID / literals keep their spelling
-	gSentences(c, c.Pick(15_000, 400_000), func(gs gSentence) {
+	gSentences(c, c.Pick(45_000, 800_000), func(gs gSentence) {
 		for j := 0; j < k; j++ {
 			o := gen.RenderOpts{Trivia: 2, Case: 1 + r.IntN(3), Quote: gs.Opts.Quote}
 			if j == 0 {
